@@ -118,6 +118,8 @@ class Model(object):
                 raise AnalysisError('A-PARSE', rel, 'syntax error: %s' % e)
             # alpha-renaming invariance: locals spelled differently from the reference table are aligned by binding
             # signature and renamed back in this in-memory tree (sa/canon.py)
+            if rel.startswith('elftools/'):
+                canon.normalise(self.trees[rel])
             canon.canonicalise(rel, self.trees[rel], self.renamed)
         for rel, tree in self.trees.items():
             syms = self.mod_symbols.setdefault(rel, {})
